@@ -3,7 +3,7 @@
    harness rewrites the implementation's streams into this codec with an
    inflater that is independent of the code under test (DESIGN.md section 5/6). *)
 From Coq Require Import ZArith NArith List Bool.
-From FV.Model Require Import Bytes Bson Metrics Codec Collector Wf.
+From FV.Model Require Import Bytes Bson Metrics Codec Collector Wf RoundTrip CollectorOk.
 Import ListNotations.
 Open Scope Z_scope.
 
@@ -16,7 +16,7 @@ Definition inflate_flag (z : bytes) : option bytes :=
 
 Definition x_new := new_coll.
 Definition x_step := step deflate_flag.
-Definition x_read (ds : list doc) := read_chunks inflate_flag None ds.
+Definition x_read (ds : list doc) := read_chunks_gen inflate_flag (Some delta_cap) None ds.
 Definition x_structured := structured_docs.
 Definition x_flat := flat_docs.
 Definition empty_writer (fs : list fault) : writer := mkWriter [] fs false.
@@ -57,25 +57,12 @@ Fixpoint norm_ids (ds : list doc) : list doc :=
 (* ---- C01 oracle: the decoded structured documents are the inputs with their
    non-metric leaves removed.  A timestamp leaf with non-zero seconds is the
    class of a known finding (decoder multiplies the seconds by 1000). ---- *)
-Definition doc_eqb (a b : doc) : bool := bytes_eqb (enc_doc a) (enc_doc b).
-
-Fixpoint docs_eqb (a b : list doc) : bool :=
-  match a, b with
-  | [], [] => true
-  | x :: r, y :: s => doc_eqb x y && docs_eqb r s
-  | _, _ => false
-  end.
-
 Definition c01_ok (inputs decoded : list doc) : bool := docs_eqb (map strip_doc inputs) decoded.
-
-(* sequence all restored documents of a chunk list; None if a restore would panic *)
-Fixpoint all_some {A} (l : list (option A)) : option (list A) :=
-  match l with
-  | [] => Some []
-  | Some x :: r => match all_some r with Some xs => Some (x :: xs) | None => None end
-  | None :: _ => None
-  end.
 
 Definition x_structured_all (cs : list chunk) : option (list doc) :=
   all_some (flat_map structured_docs cs).
 Definition x_flat_all (cs : list chunk) : list doc := flat_map flat_docs cs.
+
+(* oracles with the trivial codec *)
+Definition x_decode_ftdc := decode_ftdc inflate_flag (Some delta_cap).
+Definition x_c07_run := c07_run deflate_flag inflate_flag (Some delta_cap).
